@@ -11,6 +11,11 @@ results.  Clauses:
 * every `ViewProposals` result is exactly the set of unexpired pending proposals of that type,
   no work id twice; expired ones are purged; proposals surfaced in an outcome (or removed)
   are no longer pending;
+* every build hook of an observation proposes unexpired pending proposals only (none that an outcome
+  surfaced and that was not added again since), none twice, at most its limit, and all of them when
+  they fit; starting, closing and restarting the store changes none of this;
+* the proposal filterer (a viewer of the pending set inside the node's own flows) withholds exactly the
+  payloads of unexpired pending proposals;
 * hand-outs (`Dequeue` results): whenever the same (work id, check block) is handed out twice,
   the second record was first seen more than `proposalExpiry` after the first one — so within
   the 20 s window of a record it is handed out at most once, however often it is re-enqueued.
@@ -46,6 +51,19 @@ def viewOk (live : GMap Rec) (out : List Proposal) : Bool :=
   live.all (fun e => out.contains e.2.proposal) &&
   out.all (fun p => live.any (fun e => e.2.proposal == p))
 
+/-- what a build hook of the observation may propose out of the live set: pending, unexpired proposals
+only (so nothing that an outcome surfaced and the remove hook took out, nothing expired), no work id
+twice, at most `limit` — and every live proposal when they all fit (no omission) -/
+def obsOk (limit : Nat) (live : GMap Rec) (out : List Proposal) : Bool :=
+  decide ((out.map (·.workID)).Nodup) &&
+  out.all (fun p => live.any (fun e => e.2.proposal == p)) &&
+  decide (out.length ≤ limit) &&
+  (decide (out.length = limit) || live.all (fun e => out.contains e.2.proposal))
+
+/-- the proposal filterer withholds exactly the payloads of pending, unexpired proposals -/
+def filterOk (live : GMap Rec) (ps out : List Proposal) : Bool :=
+  out == ps.filter (fun p => !live.any (fun e => e.2.proposal.workID == p.workID))
+
 /-- reference state after `op` whose observed output was `out`; view verdict; hand-outs -/
 def sStep (tg : String → Nat) (s : SSt) (op : Op) (out : List Proposal) : SSt × Bool × List Ev :=
   match op with
@@ -71,6 +89,24 @@ def sStep (tg : String → Nat) (s : SSt) (op : Op) (out : List Proposal) : SSt 
     -- `out` = the payloads that reached the runner of the finalisation flow: each is a hand-out
     let q1 := (dequeueScan tg t s.now order s.q []).2
     ({ s with q := (dequeue tg t n s.now order s.q).2 }, true, out.map (mkEv q1 s.now))
+  | .observe t limit _ =>
+    -- `out` = what the build hook added to the observation
+    if t = logT then
+      let l := liveOf Gen.logRecoveryExpiryNs s.now s.log
+      ({ s with log := l }, obsOk limit l out, [])
+    else if t = condT then
+      let l := liveOf Gen.conditionalExpiryNs s.now s.cond
+      ({ s with cond := l }, obsOk limit l out, [])
+    else (s, out.isEmpty, [])
+  | .svc _ => (s, true, [])   -- starting / closing the store leaves every pending proposal where it is
+  | .filter t ps =>
+    if t = logT then
+      let l := liveOf Gen.logRecoveryExpiryNs s.now s.log
+      ({ s with log := l }, filterOk l ps out, [])
+    else if t = condT then
+      let l := liveOf Gen.conditionalExpiryNs s.now s.cond
+      ({ s with cond := l }, filterOk l ps out, [])
+    else (s, out == ps, [])
 
 /-- replay: all view verdicts, all hand-outs in order -/
 def sRun (tg : String → Nat) : List Op → List (Option (List Proposal)) → SSt → Bool × List Ev
@@ -128,6 +164,25 @@ def explainView (t : Nat) (gone : List (Nat × String)) (live : GMap Rec) (out :
     | some p => s!"view: a proposal surfaced in an outcome is still pending and would be proposed again (work id {p.workID})"
     | none => "view: result contains a proposal that is expired, removed or was never added"
 
+def explainObs (t limit : Nat) (gone : List (Nat × String)) (live : GMap Rec) (out : List Proposal) : String :=
+  if !decide ((out.map (·.workID)).Nodup) then "observation: a proposal is proposed twice"
+  else match out.find? (fun p => !live.any (fun e => e.2.proposal == p)) with
+    | some p =>
+      if gone.contains (t, p.workID) then
+        s!"observation: a proposal surfaced in an outcome (removed from the node's pending set) is proposed again (work id {p.workID})"
+      else s!"observation: proposes {p.workID}, which is not an unexpired pending proposal of this node"
+    | none =>
+      if out.length > limit then s!"observation: {out.length} proposals of one type, the limit is {limit}"
+      else s!"observation: carries {out.length} of {live.length} unexpired pending proposals although the limit {limit} is not reached: a pending proposal is omitted"
+
+def explainFilter (live : GMap Rec) (ps out : List Proposal) : String :=
+  match out.find? (fun p => live.any (fun e => e.2.proposal.workID == p.workID)) with
+  | some p => s!"proposal filterer: the payload of {p.workID} passes although a proposal for it is pending and unexpired (the view the filterer takes omits it)"
+  | none =>
+    match ps.find? (fun p => !live.any (fun e => e.2.proposal.workID == p.workID) && !out.contains p) with
+    | some p => s!"proposal filterer: the payload of {p.workID} is withheld although no unexpired proposal for it is pending"
+    | none => "proposal filterer: the payloads that pass are not the given ones in the given order"
+
 def explainEvents : List Ev → String
   | [] => "ok"
   | e :: es =>
@@ -147,6 +202,14 @@ def explainRun (tg : String → Nat) : List Op → List (Option (List Proposal))
         if t = logT then some s!"op {i}: {explainView t gone (liveOf Gen.logRecoveryExpiryNs s.now s.log) out}"
         else if t = condT then some s!"op {i}: {explainView t gone (liveOf Gen.conditionalExpiryNs s.now s.cond) out}"
         else some s!"op {i}: view: non-empty result for an unknown upkeep type"
+      | .observe t limit _ =>
+        if t = logT then some s!"op {i}: {explainObs t limit gone (liveOf Gen.logRecoveryExpiryNs s.now s.log) out}"
+        else if t = condT then some s!"op {i}: {explainObs t limit gone (liveOf Gen.conditionalExpiryNs s.now s.cond) out}"
+        else some s!"op {i}: observation: proposals of an unknown upkeep type"
+      | .filter t ps =>
+        if t = logT then some s!"op {i}: {explainFilter (liveOf Gen.logRecoveryExpiryNs s.now s.log) ps out}"
+        else if t = condT then some s!"op {i}: {explainFilter (liveOf Gen.conditionalExpiryNs s.now s.cond) ps out}"
+        else some s!"op {i}: proposal filterer of an unknown upkeep type withholds a payload"
       | _ => some s!"op {i}: unexpected verdict"
     else
       let gone' := match op with
